@@ -11,7 +11,9 @@ CONSTANTS
   KeepFoundBlock = FALSE
   SilentSeekHit = FALSE
   EarlyReturnOnForeign = TRUE
+  KeepCurAfterKeep = FALSE
   KeepOnGet = TRUE
   Foreign = {2}
+  RealCache = FALSE
 INVARIANTS NoPanic DataIdentity ErrorsTrue NoStaleMapping CacheBounded Capacities NoLeak
 CHECK_DEADLOCK TRUE
